@@ -128,8 +128,20 @@ def crosstalk(pms, msg):
         pass
 
 
+class LoudStr(str):
+    """a str subclass whose str() is something else than its text - what `class Frame(str, enum.Enum)` members do"""
+
+    def __str__(self):
+        return "Frame.%s" % str.__str__(self)[:4]
+
+    __repr__ = __str__
+
+    def __format__(self, spec):
+        return str.__format__(str.__str__(self), spec)
+
+
 def str_variants(msg):
-    return [("numpy.str_", np.str_(msg)), ("str subclass", StrSub(msg))]
+    return [("numpy.str_", np.str_(msg)), ("str subclass", StrSub(msg)), ("str subclass with its own __str__", LoudStr(msg))]
 
 
 def same_outcome(a, b):
